@@ -1045,6 +1045,37 @@ fn directed(g: &mut Gen, fam: usize) -> (String, ScopeSpec) {
                 steps.push(Step::Spawn(lf!(g, false, bl, vec![Step::Wait, Step::Yield(g.rng.gen_range(0..3))], e)));
             }
         }
+        9 => {
+            // nested deadlines: the caller's context has a far deadline, the nested scope is run on a child context with
+            // a much nearer one; only the near one passes (manual clock): the nested scope must be cancelled by ITS
+            // deadline and return, long before the outer deadline
+            name = "nested_deadline";
+            g.cid += 1;
+            let outer_ms = g.rng.gen_range(500..5000);
+            timeout = Some((g.cid, outer_ms));
+            let inner_ms = g.rng.gen_range(1..60);
+            let s2 = g.sid;
+            g.sid += 1;
+            g.cid += 1;
+            let c2 = g.cid;
+            g.cid += 1;
+            let c2t = g.cid;
+            let mut rs = vec![];
+            // the clock is advanced from INSIDE the nested scope (its context, hence its deadline, exists by then): past
+            // the inner timeout, far below the outer one
+            let pre = g.rng.gen_range(0..inner_ms);
+            let adv = vec![Step::Advance(pre), Step::Yield(1), Step::Advance(inner_ms - pre + g.rng.gen_range(0..2))];
+            let bl2 = b(g);
+            rs.push(Step::Spawn(lf!(g, g.rng.gen_bool(0.5), bl2, adv, 0)));
+            for _ in 0..g.rng.gen_range(1..4) {
+                let bl3 = b(g);
+                rs.push(Step::Spawn(lf!(g, g.rng.gen_bool(0.6), bl3, vec![Step::Wait], 0)));
+            }
+            rs.push(Step::Wait);
+            let bl = blocking;
+            let nested_root = lf!(g, true, bl, rs, 0);
+            steps.push(Step::Scope { spec: ScopeSpec { sid: s2, ctx: c2, timeout: Some((c2t, inner_ms)), blocking: bl, root: nested_root }, prop: false });
+        }
         _ => {
             // Scope::cancel and then everybody returns Ok: the scope returns the root's value
             name = "explicit_cancel_ok";
@@ -1061,7 +1092,7 @@ fn directed(g: &mut Gen, fam: usize) -> (String, ScopeSpec) {
     (name.to_string(), ScopeSpec { sid, ctx, timeout, blocking, root })
 }
 
-const N_DIRECTED: usize = 9;
+const N_DIRECTED: usize = 10;
 const N_SCHED: u64 = 3;
 
 // ---------------------------------------------------------------------------------------------- the property
